@@ -642,6 +642,22 @@ impl Crate {
             Err(e) => {
                 drop(fx);
                 self.failed.push((info.lean.clone(), e));
+                // keep the rest of the model compilable: a stub with the right type (reported as a broken obligation)
+                if !has_unknown(&ret) && !info.params.iter().any(|(_, t)| has_unknown(t)) && header.is_empty() {
+                    self.push_def(Def {
+                        name: info.lean.clone(),
+                        params,
+                        ret: ret.lean(),
+                        body: L::raw("default /- UNTRANSLATED -/"),
+                        is_const: false,
+                        fuel_rec: None,
+                        module: module.to_string(),
+                        generic_header: String::new(),
+                        info: Some(info.clone()),
+                        src_order: 0,
+                        instance: None,
+                    });
+                }
             }
         }
     }
